@@ -116,8 +116,12 @@ Check(r, idx) ==
         notCached == {e \in posts : e.op = "Get" /\ e.err = "miss" /\ ~removedBefore(e)}
         \* a Refresh whose successful result has been delivered while the cache still serves the replaced value (or nothing)
         notSwapped == {e \in posts : e.op = "Refresh" /\ ~removedBefore(e) /\ (e.err = "miss" \/ (r.sc.preload = 1 /\ e.v = 50))}
+        \* C11 "reads of fresh entries trigger nothing": with the clock frozen after the preloaded entry became due, a value that a
+        \* reload has just produced is fresh for an hour - no reload may start from it ("reloadof" = the value a Reload was handed)
+        fromFresh == {e \in ev : e.t = "reloadof" /\ e.v \in loadedVals(e.k)}
     IN
-    (IF undisturbed /\ notCached # {} THEN <<F(idx, "C10.returned_value_not_cached", notCached)>> ELSE <<>>)
+    (IF r.sc.stale = 1 /\ undisturbed /\ fromFresh # {} THEN <<F(idx, "C11.reload_triggered_by_fresh_entry", fromFresh)>> ELSE <<>>)
+    \o (IF undisturbed /\ notCached # {} THEN <<F(idx, "C10.returned_value_not_cached", notCached)>> ELSE <<>>)
     \o (IF undisturbed /\ notSwapped # {} THEN <<F(idx, "C11.result_delivered_before_swap", notSwapped)>> ELSE <<>>)
     \o (IF r.diag # "" /\ pendingCalls # {} THEN <<F(idx, "C08.hang", <<r.diag, {c.g : c \in pendingCalls}>>)>> ELSE <<>>)
     \o (IF r.hung = 1 THEN <<F(idx, "C08.later_get_hangs", r.inflight)>> ELSE <<>>)
